@@ -129,14 +129,14 @@ def feedback_edges(crate, body, src_pred, scanners, literal_scanners=()):
         lit = None
         if not is_scan and mir.short(c) in ("libs::re::re_contains", "libs::re::find_first_group"):
             for a in body.call_args(bb):
-                s = const_str(a)
-                if s is not None and "\\$" in s:
+                alts = flow.const_alternatives(body, a)      # a literal, or a choice between literals
+                if alts and any("\\$" in s for s in alts):
                     is_scan = True
-                    lit = s
+                    lit = "$-pattern"
         if not is_scan:
             continue
         for a in body.call_args(bb):
-            if const_str(a) is not None:
+            if const_str(a) is not None or (lit and flow.const_alternatives(body, a)):
                 continue
             ty_ok = True
             hit = flow.backward(body, a, sp)
